@@ -285,8 +285,7 @@ class Sgp4Beta:
         i0, Ω0, e0, ω0, M0, n0 = self.tle
         n0 *= 60  # conversion to min⁻¹
         if isinstance(date, Date):
-            t0 = self.tle.date.datetime
-            tdiff = (date.datetime - t0).total_seconds() / 60.0
+            tdiff = (date - self.tle.date).total_seconds() / 60.0
         elif isinstance(date, timedelta):
             tdiff = date.total_seconds() / 60.0
             date = self.tle.date + date
